@@ -326,12 +326,38 @@ func newFakeLDAP(dir map[string]string) *vFakeLDAP {
 	ready := make(chan struct{})
 	go srv.ListenAndServe("127.0.0.1:0", func(s *ldapserver.Server) {
 		f.port = s.Listener.Addr().(*net.TCPAddr).Port
-		s.Listener = tls.NewListener(s.Listener, cfg)
+		s.Listener = tls.NewListener(&vRefusingListener{Listener: s.Listener, f: f}, cfg)
 		close(ready)
 	})
 	<-ready
 	f.server = srv
 	return f
+}
+
+// vRefusingListener resets connections before anything is said while the server is in mode "refused": the client sees
+// a network error, not an LDAP answer.
+type vRefusingListener struct {
+	net.Listener
+	f *vFakeLDAP
+}
+
+func (l *vRefusingListener) Accept() (net.Conn, error) {
+	for {
+		c, err := l.Listener.Accept()
+		if err != nil {
+			return c, err
+		}
+		l.f.mu.Lock()
+		mode := l.f.mode
+		l.f.mu.Unlock()
+		if mode != "refused" {
+			return c, nil
+		}
+		if tc, ok := c.(*net.TCPConn); ok {
+			tc.SetLinger(0)
+		}
+		c.Close()
+	}
 }
 
 func (f *vFakeLDAP) setMode(m string) {
